@@ -349,6 +349,18 @@ func (g *specGen) responses() J {
 		}
 		if r.Chance(15) && !hasText { // a text/plain response with headers does not compile in strict mode (known finding)
 			resp["headers"] = J{"X-Rate-Limit": J{"schema": J{"type": "integer"}}}
+			if r.Bool() {
+				// through a component, also on responses without a body (204, a bare 201/4XX)
+				resp["headers"] = J{"X-Rate-Limit": J{"$ref": "#/components/headers/RateLimit"}}
+				g.count("response:header-ref")
+			}
+			if r.Bool() {
+				// several headers: strict responses carry them as struct fields, in a walk over the header map
+				h := resp["headers"].(J)
+				h["X-Request-Id"] = J{"schema": J{"type": "string"}}
+				h["ETag"] = J{"schema": J{"type": "string"}}
+				h["Retry-After"] = J{"schema": J{"type": "integer"}}
+			}
 			g.count("response:headers")
 		}
 		out[code] = resp
@@ -359,9 +371,15 @@ func (g *specGen) responses() J {
 
 func (g *specGen) Generate() J {
 	r := g.r
-	comps := J{"schemas": g.componentSchemas()}
+	comps := J{"schemas": g.componentSchemas(), "headers": J{"RateLimit": J{"schema": J{"type": "integer"}}}}
 	if r.Chance(40) {
-		comps["responses"] = J{"NotFound": J{"description": "nf", "content": J{"application/json": J{"schema": g.ref()}}}}
+		nf := J{"application/json": J{"schema": g.ref()}}
+		if r.Bool() {
+			// the same payload under a second JSON media type: the component's types get media-type suffixes
+			nf["application/problem+json"] = J{"schema": nf["application/json"].(J)["schema"]}
+			g.count("component-response:two-json")
+		}
+		comps["responses"] = J{"NotFound": J{"description": "nf", "content": nf}}
 	}
 	if r.Chance(30) {
 		comps["parameters"] = J{"limit": J{"name": "limit", "in": "query", "schema": J{"type": "integer"}}}
